@@ -24,6 +24,7 @@ U+3000 ...) only at the ends of a line or value.
 """
 import math
 import os
+import re
 from fractions import Fraction as Fr
 
 from lib.rat import R, F, close, dev
@@ -39,14 +40,23 @@ RULE = ("texts of the v14 mania dialect: K in 1..18, x anywhere inside a column'
         "extra sections, U+2028/U+2029/U+0085/\\x0b/\\x0c/\\x1c-\\x1e inside values, tags and file names, half of the cases through "
         "read_file / write_file on a temp file; charts reach their state through histories (stack edits, rate, deepcopy, "
         "list sort/filter/append, Osu->Qua->Osu, Osu->SM->Osu; float-typed column, int-typed offset, relabelled rows); charts: finite doubles (dyadic stream and arbitrary stream) incl. negative and sub-ms offsets, bpm/SV "
-        "of both signs; malformed lines/texts compared on the error class. non-trivial = at least one object or timing line "
+        "of both signs; malformed lines/texts compared on the error class; numeric fields of a quarter of the texts and of the "
+        "damaged lines written as Python's int()/float() accept them (underscores, non-ASCII digits and padding, '+', '5.', '.5', "
+        "exponents); claim lex: 24 tokens per case (valid exotic, inf/nan family, damaged, \\x1c-\\x1f) through int()/float() and through "
+        "OsuHit.read_string; claim lextable: digit runs and white space against unicodedata/str.isspace over all code points; "
+        "claim session: one chart object written 2-4 times (write/write_file) with 1-3 edits in between through list-property "
+        "columns, Stacker, df.loc/iloc, replaced df, replaced lists, metadata, and looks (iteration, indexing), each text judged "
+        "against the object's content at that moment read through the column API. non-trivial = at least one object or timing line "
         "off the defaults (x off the column centre, fractional/negative time, ':' in a value, malformed field)")
 ASSUMPTIONS = [
     "float rendering (repr) and unidecode are parameters of the model: the harness renders the model's tokens with "
     "Python's own repr/unidecode and asserts float(repr(x)) == x on every number it sees; integral numeric metadata is "
     "rendered by the model itself (_num)",
-    "int()/float() are modelled on the grammar ws* [+-]? digits ... (no '_' separators, no inf/nan, ASCII digits); "
-    "generators stay inside it",
+    "int()/float() are modelled as CPython 3.12 implements them on str (Unicode decimal digits / white space folded to ASCII, "
+    "\\x1c-\\x1f no white space, underscores between digits); the model's numbers are exact rationals: on inf/infinity/nan tokens "
+    "Python returns a non-finite double where the model answers ValueError (recogniser floatNonFinite; such tokens are kept out "
+    "of the text streams and replayed on the real reader by the claim lex), and a literal beyond the double range is inf for "
+    "Python and exact in the model",
     "strings travel as JSON: characters outside the BMP are not generated",
     "dialect facts (not demanded of the reader): the background event is the line after '//Background and Video events' "
     "and is quoted; sample events follow '//Storyboard Sound Samples'; effects field is 0 or 1; CircleSize is integral",
@@ -119,6 +129,126 @@ def col_range(c, k):
     lo = -(-512 * c // k)
     hi = -(-512 * (c + 1) // k) - 1
     return lo, hi
+
+
+
+# ---- numeric tokens as Python's int() / float() accept them (the wider dialect)
+
+DEC_ZEROS_BMP = [0x660, 0x6f0, 0x7c0, 0x966, 0x9e6, 0xa66, 0xe50, 0x1040, 0x17e0, 0x1810, 0xa620, 0xff10]
+NUM_WS = [" ", "\t", "\x0b", "\x0c", "\xa0", "\x85", "\u2003", "\u3000", "\u1680", "\u205f"]   # not \r \n: they end a line
+
+
+def exotic(rng, tok, is_float):
+    """a token with the same value for Python's int() / float(): underscores between digits, non-ASCII decimal digits,
+    a leading '+', white space around it, and (float fields only) '5.' / '.5' / exponent forms"""
+    t = tok
+    if is_float and rng.random() < 0.3 and re.fullmatch(r"-?\d+", t):
+        t = rng.choice([t + ".", t + ".0", t + "e0", t + "E+0", t + "0e-1", t + ".00e+00"])
+    if is_float and t.startswith("0.") and rng.random() < 0.5:
+        t = t[1:]
+    if rng.random() < 0.5:
+        out = []
+        for i, ch in enumerate(t):
+            out.append(ch)
+            if ch.isdigit() and i + 1 < len(t) and t[i + 1].isdigit() and rng.random() < 0.3:
+                out.append("_")
+        t = "".join(out)
+    if rng.random() < 0.5:
+        z = rng.choice(DEC_ZEROS_BMP)
+        allofthem = rng.random() < 0.5
+        t = "".join(chr(z + ord(ch) - 48) if ("0" <= ch <= "9" and (allofthem or rng.random() < 0.4)) else ch for ch in t)
+    if t[:1] not in "+-" and rng.random() < 0.3:
+        t = "+" + t
+    if rng.random() < 0.4:
+        t = rng.choice(NUM_WS + [""]) * rng.choice([1, 1, 2]) + t + rng.choice(NUM_WS + [""])
+    return t
+
+
+def exo_fields(rng, fields, floats):
+    """fields of one line: each numeric field becomes an equal-valued exotic token with probability 0.4"""
+    return [exotic(rng, f, i in floats) if (f is not None and rng.random() < 0.4 and re.fullmatch(r"[+-]?(\d+\.?\d*|\.\d+)([eE][+-]?\d+)?", f))
+            else f for i, f in enumerate(fields)]
+
+
+LEX_BASE = ["0", "7", "12", "007", "1234567", "-3", "+15", "-0", "0.5", ".5", "5.", "12.75", "-0.125", "1e3", "2.5e2", "1E-3", "1e+05",
+            "1.e5", ".5E3", "00012.50", "123456789012345678901234567890", "1e22", "1e-400", "4.9e-324", "1.7976931348623157e308"]
+LEX_BAD = ["", " ", ".", "e5", "1e", "1e+", "--1", "+-1", "+ 1", "1 2", "1_", "_1", "1__0", "1_.5", "1._5", "1_e5", "1e_5", "._5", "0x10",
+           "1e5.0", "1d5", "1;5", "²", "½", "Ⅷ", "一", "٣²", "1\x00", "\x1c5", "5\x1c", "5\x1d", "\x1e5\x1e", "5\x1f", "1\x1c2", "\ufeff5", "5\u200b",
+           "in_f", "infinit", "nan_", "in f", "+ inf", "infinityy", "na", "i", "1e400", "-1e999", "١_", "１＿２", "-", "+", "..5", "5..", "1e1e1",
+           "1e5_", "+_5", "- 5", "٣ ٥"]
+LEX_NONFIN = ["inf", "INF", "Inf", "infinity", "Infinity", "iNfInItY", "nan", "NaN", "NAN"]
+
+
+
+def _exp_ok(t):
+    """the model computes the exact value of a literal: exponents of more than 3 digits are kept out of the generated tokens
+    (Python answers inf / 0.0 at once, 10^(10^20) cannot be written down)"""
+    import unicodedata
+    f = "".join(str(unicodedata.decimal(ch)) if (ch.isdigit() and unicodedata.category(ch) == "Nd") else ch for ch in t).replace("_", "")
+    return re.search(r"[eE][+-]?[0-9]{4,}", f) is None
+
+
+def gen_lex_tok(rng):
+    for _ in range(50):
+        t = _gen_lex_tok(rng)
+        if _exp_ok(t):
+            return t
+    return "1e5"
+
+
+def _gen_lex_tok(rng):
+    r = rng.random()
+    if r < 0.45:
+        base = rng.choice(LEX_BASE + [str(rng.randint(-10 ** 6, 10 ** 6)), f"{rng.randint(-5000, 400000)}.{rng.randint(0, 999):03d}",
+                                      f"{rng.randint(1, 999)}e{rng.randint(-30, 30)}"])
+        return exotic(rng, base, True) if rng.random() < 0.8 else base
+    if r < 0.60:
+        t = rng.choice(LEX_NONFIN)
+        t = rng.choice(["", "", "+", "-"]) + t
+        if rng.random() < 0.5:
+            t = rng.choice(NUM_WS + [""]) + t + rng.choice(NUM_WS + [""])
+        return t
+    if r < 0.85:
+        t = rng.choice(LEX_BAD)
+        if rng.random() < 0.3:
+            t = rng.choice(NUM_WS) + t
+        return t
+    # a valid token damaged at one position
+    t = exotic(rng, rng.choice(LEX_BASE), True)
+    i = rng.randrange(len(t) + 1)
+    return t[:i] + rng.choice(["_", " ", "\x1c", "\x1f", "e", ".", "-", "+", "٣", "x", "\u2003", "\x00", "?"]) + t[i:]
+
+
+
+INT_META = ["AudioLeadIn", "PreviewTime", "Countdown", "Mode", "LetterboxInBreaks", "SpecialStyle", "WidescreenStoryboard", "BeatDivisor",
+            "GridSize", "BeatmapID", "BeatmapSetID"]
+FLOAT_META = ["StackLeniency", "DistanceSpacing", "TimelineZoom", "HPDrainRate", "CircleSize", "OverallDifficulty", "ApproachRate",
+              "SliderMultiplier", "SliderTickRate"]
+
+
+def exo_line(rng, line, kind):
+    """the same line with some of its numeric fields written as equal-valued exotic tokens (file names, the literal
+    `uninherited` flag of a timing line and the `Sample` / layer fields stay as they are)"""
+    parts = line.split(",")
+    if kind == "obj" and len(parts) == 6:
+        ex = parts[5].split(":")
+        parts[:5] = exo_fields(rng, parts[:5], {2})
+        nums = exo_fields(rng, ex[:-1], {0} if len(ex) == 6 else set())
+        parts[5] = ":".join(nums + ex[-1:])
+    elif kind == "timing" and len(parts) == 8:
+        flag = parts[6]
+        parts = exo_fields(rng, parts, {0, 1})
+        parts[6] = flag
+    elif kind == "sample" and len(parts) == 5:
+        parts[1] = exo_fields(rng, [parts[1]], {0})[0]
+        parts[4] = exo_fields(rng, [parts[4]], set())[0]
+    elif kind == "meta" and ":" in line:
+        key, v = line.split(":", 1)
+        if key in INT_META or key in FLOAT_META:
+            lead = v[:len(v) - len(v.lstrip(" "))]
+            return key + ":" + lead + exo_fields(rng, [v.strip(" ")], {0} if key in FLOAT_META else set())[0]
+        return line
+    return ",".join(parts)
 
 
 def gen_time_text(rng):
@@ -249,6 +379,23 @@ def gen_text(rng, tier):
         L.append(gen_obj_line(rng, k, odd=odd))
     if rng.random() < 0.5:
         L.append("")
+    if rng.random() < 0.25:
+        # the wider dialect: numeric fields as Python's int() / float() accept them
+        sec = None
+        out = []
+        for l in L:
+            if l.startswith("[") and l.endswith("]"):
+                sec = l
+            elif sec in KV_HEADERS:
+                l = exo_line(rng, l, "meta")
+            elif sec == "[Events]" and l.startswith("Sample,"):
+                l = exo_line(rng, l, "sample")
+            elif sec == "[TimingPoints]" and l:
+                l = exo_line(rng, l, "timing")
+            elif sec == "[HitObjects]" and l:
+                l = exo_line(rng, l, "obj")
+            out.append(l)
+        L = out
     eol = rng.choice(["", "", "\r", " "])
     if eol:
         L = [l + eol for l in L]
@@ -266,7 +413,10 @@ def gen_bad_line(rng):
     else:
         s = gen_sample_line(rng)
     n = rng.choice([0, 1, 1, 2])
-    junk = ["", "abc", "1.5", "--1", "1e3", " 12 ", "+7", "0x10", "0", "0.0", "-0", "1 2", ".", "e5", "1e", "-", "5.", ".5"]
+    if rng.random() < 0.3:
+        s = exo_line(rng, s, dict(hit="obj", hold="obj", bpm="timing", sv="timing", sample="sample")[kind])
+    junk = ["", "abc", "1.5", "--1", "1e3", " 12 ", "+7", "0x10", "0", "0.0", "-0", "1 2", ".", "e5", "1e", "-", "5.", ".5",
+            "1_0", "1_", "_1", "1__0", "1_.5", "١٢", "٣.٥", "+５", "\x1c5", "5\x1c", "7\u2003", "\xa07", "1\x1d2", "²", "1_0.5e0_1", "1e_5"]
     for _ in range(n):
         r = rng.random()
         parts = s.split(",")
@@ -434,12 +584,140 @@ def gen_chart(rng, tier, small=False):
     return dict(meta=meta, bpms=bpms, svs=svs, hits=hits, holds=holds)
 
 
+
+# ---- sessions: one chart object, written several times with edits in between
+
+LISTS = ["hits", "holds", "bpms", "svs", "samples"]
+EDIT_KINDS = ["col_add", "col_column", "col_scale", "col_volume", "stack_add", "stack_loc", "df_iloc", "df_loc", "df_replace",
+              "list_sorted", "list_after", "list_append", "meta"]
+LOOK_KINDS = ["iter", "write_discard", "getitem", "stack", "records"]
+SESSION_D = [1000.25, -777.5, 0.5, 11.0, 250.0, -0.75, 3.0]
+
+
+def gen_edit(rng, k):
+    kind = rng.choice(EDIT_KINDS)
+    e = dict(op="edit", kind=kind, lst=rng.choice(LISTS), d=rng.choice(SESSION_D), i=rng.randint(0, 50))
+    if kind in ("col_column",):
+        e["lst"] = rng.choice(["hits", "holds"])
+    if kind == "col_scale":
+        e["lst"] = rng.choice(["holds", "bpms", "svs"])
+    if kind == "col_volume":
+        e["lst"] = rng.choice(["hits", "holds", "bpms", "svs", "samples"])
+    if kind in ("list_after",):
+        e["lst"] = rng.choice(["hits", "holds", "bpms", "svs"])
+        e["t"] = rng.choice([-10000.0, 0.0, 1000.0, 50000.0])
+    if kind == "stack_loc":
+        e["t"] = rng.choice([0.0, 1000.0, 50000.0])
+    if kind == "meta":
+        e["key"] = rng.choice(["title_unicode", "version", "creator", "preview_time", "tags", "beatmap_id", "hp_drain_rate"])
+        e["val"] = {"title_unicode": rng.choice(WORDS), "version": rng.choice(WORDS), "creator": rng.choice(WORDS),
+                    "preview_time": rng.choice([-1, 500, 12.5]), "tags": [rng.choice(TAGWORDS) for _ in range(rng.randint(0, 3))],
+                    "beatmap_id": rng.choice([0, 7, 2062527]), "hp_drain_rate": rng.choice([2.0, 7.5, 0.125])}[e["key"]]
+    return e
+
+
+def gen_session(rng, k):
+    """2-4 writes (write() / write_file()) of ONE chart object; between them edits through every public editing route and
+    plain looks (iteration, indexing, stack) that may leave state behind"""
+    steps = []
+    if rng.random() < 0.3:
+        steps.append(dict(op="look", kind=rng.choice(LOOK_KINDS)))
+    if rng.random() < 0.3:
+        steps.append(gen_edit(rng, k))
+    nw = rng.choice([2, 2, 3, 4])
+    for w in range(nw):
+        steps.append(dict(op="write", via=rng.choice(["lines", "file"])))
+        if w == nw - 1:
+            break
+        if rng.random() < 0.25:
+            steps.append(dict(op="look", kind=rng.choice(LOOK_KINDS)))
+        for _ in range(rng.choice([1, 1, 2, 3])):
+            steps.append(gen_edit(rng, k))
+        if rng.random() < 0.25:
+            steps.append(dict(op="look", kind=rng.choice(LOOK_KINDS)))
+    return steps
+
+
+def apply_look(m, kind):
+    if kind == "iter":
+        for lst in LISTS:
+            for _ in getattr(m, lst):
+                pass
+    elif kind == "write_discard":
+        m.write()
+    elif kind == "getitem":
+        for lst in LISTS:
+            tl = getattr(m, lst)
+            if len(tl):
+                tl[0]
+                tl[0:1]
+    elif kind == "stack":
+        m.stack()
+    elif kind == "records":
+        extract(m)
+
+
+def apply_edit(m, e, k):
+    """one edit of the chart through the public API; every edit keeps the chart inside the property's domain (columns inside
+    the key count, non-zero bpm / SV, lengths >= 0)"""
+    kind, d = e["kind"], float(e["d"])
+    tl = getattr(m, e["lst"])
+    n = len(tl)
+    if kind == "col_add":
+        tl.offset += d
+    elif kind == "col_column":
+        tl.column = (tl.column + 1) % k
+    elif kind == "col_scale":
+        if e["lst"] == "holds":
+            tl.length *= 2
+        elif e["lst"] == "bpms":
+            tl.bpm = tl.bpm * 2
+        else:
+            tl.multiplier /= 4
+    elif kind == "col_volume":
+        tl.volume = (tl.volume + 10) % 101
+    elif kind == "stack_add":
+        st = m.stack()
+        st.offset += d
+    elif kind == "stack_loc":
+        st = m.stack()
+        st.loc[st.offset > float(e["t"]), "offset"] += d
+    elif kind == "df_iloc":
+        if n:
+            df = tl.df
+            cur = df["offset"].iloc[e["i"] % n]
+            # an int-typed offset column takes an int (pandas refuses a float there in place)
+            df.iloc[e["i"] % n, df.columns.get_loc("offset")] = (int(cur) + (int(d) or 1)) if df["offset"].dtype.kind == "i" else float(cur) + d
+    elif kind == "df_loc":
+        if n:
+            df = tl.df
+            df.loc[df["offset"] >= df["offset"].median(), "offset"] += ((int(d) or 1) if df["offset"].dtype.kind == "i" else d)
+    elif kind == "df_replace":
+        df = tl.df.copy()
+        df["offset"] = df["offset"] + d
+        tl.df = df
+    elif kind == "list_sorted":
+        setattr(m, e["lst"], tl.sorted(reverse=bool(e["i"] % 2)))
+    elif kind == "list_after":
+        setattr(m, e["lst"], tl.after(float(e["t"]), include_end=True))
+    elif kind == "list_append":
+        if n:
+            setattr(m, e["lst"], tl.append(tl[0:1]))
+    elif kind == "meta":
+        setattr(m, e["key"], list(e["val"]) if e["key"] == "tags" else e["val"])
+
+
 def gen(rng, tier, i):
     if i < 18:
         # exhaustive sub-claim, both tiers: every x of the playfield and every column for K = i + 1
         return dict(claim="coltable", k=i + 1)
+    if i == 18:
+        # the tables of the number reader, both tiers: Unicode decimal digits and white space against the running interpreter
+        return dict(claim="lextable")
     r = rng.random()
-    if r < 0.10:
+    if r < 0.06:
+        return dict(claim="lex", toks=[gen_lex_tok(rng) for _ in range(24)])
+    if r < 0.12:
         k = rng.randint(1, 18)
         if rng.random() < 0.5:
             return dict(claim="col", k=k, x=rng.choice([rng.randint(0, 511), rng.randint(-20, 540), 256, 255, 511, 0]))
@@ -451,8 +729,11 @@ def gen(rng, tier, i):
         return dict(claim="read", via=via, lines=gen_text(rng, tier))
     if r < 0.60:
         return gen_bad_text(rng, tier)
-    if r < 0.85:
+    if r < 0.80:
         return dict(claim="write", via=via, history=gen_history(rng), chart=gen_chart(rng, tier))
+    if r < 0.89:
+        ch = gen_chart(rng, tier, small=True)
+        return dict(claim="session", history=gen_history(rng), chart=ch, steps=gen_session(rng, int(ch["meta"]["circle_size"])))
     return dict(claim="cycle", via=via, history=gen_history(rng), chart=gen_chart(rng, tier, small=True))
 
 
@@ -527,6 +808,17 @@ def corpus():
                              hitsound_file="x", length=l)
     m2 = dict(META_DEFAULT); m2["circle_size"] = 14.0
     c.append(dict(claim="write", chart=dict(meta=m2, bpms=[], svs=[], hits=[], holds=[hold(0.6, 0.0), hold(0.5, 1.0)])))
+    # sessions on one chart object: write, edit every list in place through its column properties, write again — the
+    # second text must be the chart as it is then (a row cache kept by an earlier iteration would show the old one)
+    E = lambda kind, lst, d=1000.25, **kw: dict(op="edit", kind=kind, lst=lst, d=d, i=1, **kw)
+    W = lambda via="lines": dict(op="write", via=via)
+    c.append(dict(claim="session", chart=chart, steps=[W(), E("col_add", "hits"), E("col_column", "hits"), E("col_add", "holds", -777.5),
+                                                       E("col_scale", "holds"), E("col_scale", "bpms"), E("col_scale", "svs"),
+                                                       E("col_add", "svs", 11.0), E("col_add", "samples", 3.0), W()]))
+    c.append(dict(claim="session", chart=chart, steps=[dict(op="look", kind="iter"), E("stack_add", "hits", 250.0), W("file"),
+                                                       E("df_loc", "hits"), E("df_iloc", "holds"), W("file"),
+                                                       E("df_replace", "bpms", 0.5), E("list_sorted", "hits"), E("meta", "hits", key="version", val="v2"),
+                                                       W()]))
     return c
 
 
@@ -547,13 +839,64 @@ def valid(case):
             if "x" in case:
                 return isinstance(case["x"], int) and -10000 <= case["x"] <= 10000
             return isinstance(case["c"], int) and 0 <= case["c"] < case["k"]
+        if cl == "lextable":
+            return True
+        if cl == "lex":
+            return (isinstance(case["toks"], list) and 1 <= len(case["toks"]) <= 64
+                    and all(isinstance(t, str) and len(t) <= 400 and "\n" not in t and "\r" not in t and "," not in t and ":" not in t
+                            and all(ord(ch) <= 0xFFFF and not (0xD800 <= ord(ch) <= 0xDFFF) for ch in t) and _exp_ok(t)
+                            for t in case["toks"]))
         if cl == "line":
             return isinstance(case["s"], str) and isinstance(case["k"], int) and 1 <= case["k"] <= 18 and _text_ok([case["s"]])
         if cl in ("read", "badtext"):
             if not (isinstance(case["lines"], list) and all(isinstance(l, str) for l in case["lines"]) and _text_ok(case["lines"])):
                 return False
             return cl == "badtext" or dialect_ok(case["lines"])
-        if cl in ("write", "cycle"):
+        if cl == "session":
+            if not (isinstance(case["steps"], list) and 1 <= len(case["steps"]) <= 40):
+                return False
+            for st in case["steps"]:
+                if st.get("op") == "write":
+                    if st.get("via") not in ("lines", "file"):
+                        return False
+                elif st.get("op") == "look":
+                    if st.get("kind") not in LOOK_KINDS:
+                        return False
+                elif st.get("op") == "edit":
+                    if st.get("kind") not in EDIT_KINDS or st.get("lst") not in LISTS or not _isnum(st.get("d")) \
+                            or not (isinstance(st.get("i"), int) and 0 <= st["i"] <= 1000):
+                        return False
+                    if st["kind"] == "col_column" and st["lst"] not in ("hits", "holds"):
+                        return False
+                    if st["kind"] == "col_scale" and st["lst"] not in ("holds", "bpms", "svs"):
+                        return False
+                    if st["kind"] == "list_after" and (st["lst"] == "samples" or not _isnum(st.get("t"))):
+                        return False
+                    if st["kind"] == "stack_loc" and not _isnum(st.get("t")):
+                        return False
+                    if abs(st["d"]) > 1e6:
+                        return False
+                    if st["kind"] == "meta":
+                        key, val = st.get("key"), st.get("val")
+                        if key in ("title_unicode", "version", "creator"):
+                            if not _str_ok(val):
+                                return False
+                        elif key == "preview_time" or key == "hp_drain_rate":
+                            if not _isnum(val):
+                                return False
+                        elif key == "beatmap_id":
+                            if not (isinstance(val, int) and not isinstance(val, bool)):
+                                return False
+                        elif key == "tags":
+                            if not (isinstance(val, list) and all(_str_ok(t) and t and " " not in t for t in val)):
+                                return False
+                        else:
+                            return False
+                else:
+                    return False
+            if not any(st.get("op") == "write" for st in case["steps"]):
+                return False
+        if cl in ("write", "cycle", "session"):
             for o in case.get("history", []):
                 if o.get("op") not in HISTORY_OPS:
                     return False
@@ -621,7 +964,7 @@ def dialect_ok(lines):
 
 def _text_ok(lines):
     for l in lines:
-        if "\n" in l or "_" in l or any(ord(ch) > 0xFFFF for ch in l):
+        if "\n" in l or any(ord(ch) > 0xFFFF for ch in l) or not _exp_ok(l):
             return False
         low = l.lower()
         if "inf" in low or "nan" in low:
@@ -1017,8 +1360,109 @@ def g_lossy(meta):
 # ------------------------------------------------------------------------------------------ run
 
 def run(case, drv):
-    return dict(col=run_col, coltable=run_coltable, line=run_line, read=run_read, badtext=run_badtext, write=run_write, cycle=run_cycle)[
+    return dict(col=run_col, coltable=run_coltable, line=run_line, read=run_read, badtext=run_badtext, write=run_write, cycle=run_cycle, session=run_session, lex=run_lex, lextable=run_lextable)[
         case["claim"]](case, drv)
+
+
+
+def _py_num(fn, t):
+    try:
+        return ("ok", fn(t))
+    except ValueError:
+        return ("err", "value")
+    except Exception as e:      # noqa
+        return ("err", err_class(e))
+
+
+def run_lex(case, drv):
+    """Python's int() / float() — and the real reader's use of them (`OsuHit.read_string`: `float` of the time field, `int`
+    of the hitsound field) — against the model's `readInt` / `readFloat` / `floatNonFinite`, token by token.  Where the
+    model says `nonfinite` the code must return exactly that non-finite double (the documented point where model and code
+    part ways: the model has rationals only); everywhere else results agree exactly (a finite literal: the correctly rounded
+    double of the model's exact value; beyond the double range: +-inf)."""
+    OsuHit = _imports()["OsuHit"]
+    toks = case["toks"]
+    res = drv.call("c01.lex", toks=toks)["ok"]
+    why, tags = [], set()
+    agree = True
+    for t, m in zip(toks, res):
+        pi, pf = _py_num(int, t), _py_num(float, t)
+        # --- int
+        if pi[0] == "ok":
+            good = "ok" in m["int"] and int(F(m["int"]["ok"])) == pi[1]
+        else:
+            good = m["int"].get("err") == pi[1]
+        # --- float
+        want_nf = None
+        if pf[0] == "ok" and not math.isfinite(pf[1]):
+            want_nf = "nan" if math.isnan(pf[1]) else ("inf" if pf[1] > 0 else "-inf")
+        if pf[0] == "err":
+            goodf = m["float"].get("err") == pf[1] and m["nonfinite"] is None
+        elif "ok" in m["float"]:
+            q = F(m["float"]["ok"])
+            try:
+                d = float(q)
+            except OverflowError:
+                d = math.inf if q > 0 else -math.inf
+            goodf = m["nonfinite"] is None and (d == pf[1]) and (math.copysign(1, d) == math.copysign(1, pf[1]) or d == 0)
+            if not math.isfinite(d):
+                tags.add("beyond-double-range")
+        else:
+            # the model rejects, Python accepts: allowed exactly on the non-finite tokens
+            goodf = want_nf is not None and m["nonfinite"] == want_nf and m["float"].get("err") == "value"
+            tags.add("nonfinite-token")
+        # --- the real reader on a line that carries the token in its time field and in its hitsound field
+        line_f = f"64,192,{t},1,0,0:0:0:0:"
+        line_i = f"64,192,0,1,{t},0:0:0:0:"
+        for line, kind, py in ((line_f, "float", pf), (line_i, "int", pi)):
+            try:
+                d_ = OsuHit.read_string(line, 4, True)
+                got = ("ok", float(d_["offset"]) if kind == "float" else int(d_["hitsound_set"]))
+            except Exception as e:
+                got = ("err", err_class(e))
+            same = got[0] == py[0] and (got[1] == py[1] or (got[0] == "ok" and kind == "float" and math.isnan(got[1]) and math.isnan(py[1])))
+            if not same:
+                good = False
+                why.append(f"reader on {line!r}: {got} but {kind}() gives {py}")
+        if not (good and goodf):
+            agree = False
+            why.append(f"token {t!r}: int() {pi} model {m['int']}; float() {pf} model {m['float']} nonfinite={m['nonfinite']}")
+        tags.add("int-" + pi[0]); tags.add("float-" + pf[0])
+        if "_" in t: tags.add("underscore")
+        if any(ord(ch) > 127 and ch.isdigit() for ch in t): tags.add("unicode-digit")
+        if any(0x1c <= ord(ch) <= 0x1f for ch in t): tags.add("sep-1c-1f")
+    return dict(claim="lex", ok=True, agree=agree, dom=False, tags=sorted(tags), nontrivial=True,
+                detail={} if agree else dict(why=why[:6]))
+
+
+def run_lextable(case, drv):
+    """the two tables inside the number reader, compared exhaustively with the running interpreter: the runs of Unicode
+    decimal digits (`unicodedata`, category Nd) and the white space of `str.strip()` (`str.isspace`)"""
+    import unicodedata
+    tb = drv.call("c01.lex_tables")["ok"]
+    zeros = []
+    okv = True
+    for cp in range(0x110000):
+        ch = chr(cp)
+        if unicodedata.category(ch) == "Nd":
+            z = cp - unicodedata.decimal(ch)
+            if z not in zeros:
+                zeros.append(z)
+    ws = [cp for cp in range(0x110000) if not (0xD800 <= cp <= 0xDFFF) and chr(cp).isspace()]
+    why = []
+    if sorted(tb["dec_zeros"]) != sorted(zeros):
+        why.append(f"decimal digit runs differ: model-only {sorted(set(tb['dec_zeros']) - set(zeros))[:5]} python-only {sorted(set(zeros) - set(tb['dec_zeros']))[:5]}")
+    if tb["ws"] != ws:
+        why.append(f"white space differs: model {tb['ws'][:40]} python {ws[:40]}")
+    # every digit of every run has the value the model assigns
+    for z in zeros:
+        for i in range(10):
+            if unicodedata.decimal(chr(z + i), None) != i:
+                why.append(f"run {hex(z)} is not ten consecutive digits")
+                break
+    agree = not why
+    return dict(claim="lextable", ok=True, agree=agree, dom=False, tags=["unicode-" + unicodedata.unidata_version], nontrivial=True,
+                detail={} if agree else dict(why=why[:4]))
 
 
 def run_col(case, drv):
@@ -1345,6 +1789,106 @@ def run_write(case, drv, cycle=False):
         res["_text"] = impl_text
         res["_back"] = back
     return res
+
+
+
+def _judge_written(drv, ch, impl_text, via):
+    """the judgement of ONE written text against the chart content `ch` it was written from (the same three oracles as
+    `run_write`): (C) the text equals the model's text character by character; (S) the text is well formed and the Lean
+    `denote` of it equals the Lean `quantize` of `ch`, the implementation reads it back as `quantize ch`, and every note
+    has a counterpart less than 1 ms away"""
+    c_w, c_s, c_r = Cmp(), Cmp(), Cmp()
+    wire, boundary = _wire_with_boundary(ch, uni=False)
+    model_text = "\n".join(render(drv.call("c01.write", chart=wire)["ok"], ch))
+    agree = impl_text == model_text
+    if not agree:
+        il, ml = impl_text.split("\n"), model_text.split("\n")
+        for a, b in zip(il, ml):
+            if a != b:
+                c_w.why.append(f"line impl {a!r} vs model {b!r}")
+                break
+        if len(il) != len(ml):
+            c_w.why.append(f"{len(il)} lines vs {len(ml)}")
+    file_lines = drv.call("c01.file_lines", text=impl_text)["ok"] if via == "file" else impl_text.split("\n")
+    wire_u, _ = _wire_with_boundary(ch, uni=True)
+    q = drv.call("c01.quantize", chart=wire_u)["ok"]
+    sp = drv.call("c01.denote", lines=file_lines)
+    wf = drv.call("c01.wf", lines=file_lines)["ok"]
+    ok = True
+    if "ok" not in sp or not (wf["timing"] and wf["objects"]):
+        ok = False
+        c_s.why.append(f"written text is not well formed / not denotable: {sp.get('err')} {wf}")
+    else:
+        ok &= cmp_lean_charts(c_s, sp["ok"], q, "denote(write) vs quantize(current chart)")
+    back = _impl_read_text(impl_text) if via == "file" else _impl_read(file_lines)
+    if back[0] == "err":
+        ok = False
+        c_r.why.append(f"reading the written text raises {back[1]}")
+    else:
+        ok &= cmp_chart_q(c_r, back[1], q, "read(write) vs quantize(current chart)")
+    if ok and back[0] == "ok":
+        ok &= moved_less_than_1ms(c_r, ch, back[1])
+    return dict(ok=ok, agree=agree, boundary=boundary, maxdev=max(c_s.maxdev, c_r.maxdev),
+                why=dict(why_write=c_w.why[:4], why_spec=c_s.why[:6], why_read=c_r.why[:6]))
+
+
+def run_session(case, drv):
+    """WHAT IS WRITTEN DEPENDS ON THE CHART'S CURRENT CONTENT, NOT ON WHAT AN EARLIER CALL SAW: one chart object is written
+    2-4 times (write() / write_file()), edited in between through every public editing route (list-property columns in
+    place, Stacker, df.loc / df.iloc, a replaced df, replaced lists, metadata attributes) and looked at (iteration, indexing);
+    every written text is judged against the content the object has at that moment, read through the plain column API
+    (`tl.df.to_dict`, never through iteration)."""
+    ch0 = case["chart"]
+    hist = case.get("history", [])
+    tags, writes = [], 0
+    ok = agree = True
+    boundary = False
+    maxdev = 0.0
+    detail = {}
+    d44 = False
+    try:
+        m = build_map(ch0)
+        if hist:
+            m, done = apply_history(m, hist)
+            if _chart_ok(normalise(extract(m))):
+                tags += ["h-" + o for o in done]
+            else:
+                m = build_map(ch0)
+                tags.append("history-dropped")
+        k = int(m.circle_size)
+        edits_since_write = 0
+        for ix, st in enumerate(case["steps"]):
+            if st["op"] == "look":
+                apply_look(m, st["kind"])
+                tags.append("look-" + st["kind"])
+            elif st["op"] == "edit":
+                apply_edit(m, st, k)
+                edits_since_write += 1
+                tags.append("e-" + st["kind"])
+            else:
+                cur = normalise(extract(m))
+                if not _chart_ok(cur):
+                    # only when the generated chart itself is outside the domain (the D44 witness title ends in U+2028): the edits keep the domain
+                    return dict(claim="session", ok=True, agree=True, dom=False, tags=tags + ["left-domain"], nontrivial=False)
+                d44 = d44 or D44(cur["meta"])
+                text = _impl_write_text(m, st["via"])
+                j = _judge_written(drv, cur, text, st["via"])
+                writes += 1
+                if writes > 1 and edits_since_write:
+                    tags.append("write-after-edit")
+                edits_since_write = 0
+                boundary = boundary or j["boundary"]
+                maxdev = max(maxdev, j["maxdev"])
+                if not (j["ok"] and j["agree"]):
+                    ok, agree = ok and j["ok"], agree and j["agree"]
+                    detail = dict(step=ix, write_no=writes, **j["why"])
+                    break
+    except Exception as e:
+        return dict(claim="session", ok=False, agree=False, dom=True, tags=tags + ["session-raises", err_class(e)], nontrivial=True,
+                    detail=dict(err=f"{type(e).__name__}: {e}"))
+    kf = "D44" if (not ok and d44) else None
+    return dict(claim="session", ok=ok, agree=agree, dom=not d44, kf=kf, tags=sorted(set(tags)) + ["writes%d" % writes],
+                nontrivial=writes > 1, boundary=boundary, maxdev=maxdev, detail=detail)
 
 
 def cmp_lean_charts(c, a, b, what):
